@@ -31,7 +31,9 @@ def unopt(v):
 
 
 def S(b: bytes) -> str:
-    return b.decode("utf-8")
+    # octets that are not UTF-8 become lone surrogates (PEP 383): a str value every text argument can legally have
+    # (argv, environ, os.fsdecode) and that has no UTF-8 form
+    return b.decode("utf-8", "surrogateescape")
 
 
 def B(s: str) -> bytes:
